@@ -9,15 +9,24 @@ import (
 	"github.com/brimdata/super/zcode"
 )
 
-// vTVAlphabet restricts type-value bytes to the classes that matter to the
-// decoder: every type id and small count (0..39, 39 being the first invalid
-// id) plus two high bytes (0x80: uvarint continuation with zero payload,
-// 0xff: continuation with full payload / invalid UTF-8 / invalid id).  Without
-// it every count byte concretises into hundreds of allocation sizes.
-func vTVAlphabet(b []byte) {
-	for _, x := range b {
-		verif.Assume(x < 40 || x == 0x80 || x == 0xff)
+// The type-value alphabet restricts type-value bytes to the classes that matter to the
+// decoder: small counts / name lengths 0..4, eight primitive ids (uint8..uint64,
+// the unimplemented uint128, int64, string, null), every complex type-value
+// code 30..38, the first invalid id 39, and two high bytes (0x80: uvarint
+// continuation with zero payload, 0xff: continuation with full payload /
+// invalid UTF-8 / invalid id).  Without it every id byte forks into 30
+// primitives and every count byte concretises into hundreds of sizes.
+var vTVLetters = [20]byte{0, 1, 2, 3, 4, 9, 25, 29, 30, 31, 32, 33, 34, 35, 36, 37, 38, 39, 0x80, 0xff}
+
+// vTVBytes returns 0..max bytes (one path per length), each an arbitrary
+// letter of the alphabet.
+func vTVBytes(name string, max int) []byte {
+	n := verif.Choose(name+".len", max+1)
+	b := make([]byte, n)
+	for i := range b {
+		b[i] = vTVLetters[verif.Range(name+".letter", 0, len(vTVLetters)-1)]
 	}
+	return b
 }
 
 // vTouchType traverses a decoded type the way consumers do (type-value
@@ -27,16 +36,15 @@ func vTouchType(typ Type) int {
 }
 
 // verif:desc C11-O3a Context.LookupByValue / Context.DecodeTypeValue (DecodeName, DecodeLength, all Lookup* constructors, CompareTypes via the union sort) on an arbitrary byte string: no panic escapes; err==nil implies a non-nil type that can be traversed (re-encoded) and that a second LookupByValue of the same bytes returns again; a rejected input returns (nil, error).
-// verif:bounds tv: every byte string of length 0..4 (quick) / 0..5 (thorough) over the alphabet {0..39, 0x80, 0xff}; fresh context
-// verif:outside bytes 40..0x7f and other high bytes (same decoder classes as 39 / 0xff except for count magnitudes); longer inputs; counts near the documented maxima (see O3b)
+// verif:bounds tv: every byte string of length 0..3 (quick) / 0..4 (thorough) over the 20-letter alphabet {0..4, 9, 25, 29, 30..39, 0x80, 0xff} (see vTVBytes); fresh context
+// verif:outside other byte values (further primitive ids, larger counts; same decoder classes); longer inputs; counts near the documented maxima (see O3b)
 // verif:unwind 48
 func VerifH_C11_O3_typevalue_bytes() {
-	n := 4
+	n := 3
 	if verif.Thorough() {
-		n = 5
+		n = 4
 	}
-	tv := verif.Bytes("tv", n)
-	vTVAlphabet(tv)
+	tv := vTVBytes("tv", n)
 	c := NewContext()
 	typ, err := c.LookupByValue(tv)
 	if err != nil {
@@ -54,22 +62,38 @@ func VerifH_C11_O3_typevalue_bytes() {
 	verif.Reach("accept")
 }
 
-// verif:desc C11-O3b the element counts of record / union / enum type values and the name lengths are bounded before they are used: for ANY uvarint count (1..10 bytes, including values >= 2^63 that wrap to a negative int) DecodeTypeValue returns without a panic (no negative or oversized make, no negative slice bound).
-// verif:bounds kind in {record, union, enum, namedef, nameref}; count/length: any uvarint of 1..10 bytes whose value is >= 99990 or negative as int (the region around MaxRecordFields/MaxUnionTypes/MaxEnumSymbols = 100000 and everything above); up to 2 arbitrary trailing bytes (alphabet of O3a)
-// verif:outside counts below 99990 (small counts are covered by O3a)
+// verif:desc C11-O3b the element counts of record / union / enum type values and the name lengths are bounded before they are used: for ANY uvarint count (1..10 bytes, including values >= 2^63 that wrap to a negative int) DecodeTypeValue returns without a panic (no negative or oversized make, no negative slice bound).  Assertion id decode-panics/count-wraps-negative is the region count >= 2^63.
+// verif:bounds kind in {record, union, enum, namedef, nameref}; count/length: any uvarint of 1..10 bytes whose value is >= 99999 (so also every value that is negative as int) (the region around MaxRecordFields/MaxUnionTypes/MaxEnumSymbols = 100000 and everything above); up to 1 trailing byte (alphabet of O3a)
+// verif:outside counts below 99999 (small counts are covered by O3a)
 // verif:unwind 24
 func VerifH_C11_O3_typevalue_counts() {
 	kind := []byte{TypeValueRecord, TypeValueUnion, TypeValueEnum, TypeValueNameDef, TypeValueNameRef}[verif.Choose("kind", 5)]
 	cnt := verif.Bytes("count", 10)
 	u, k := binary.Uvarint(cnt)
 	verif.Assume(k == len(cnt) && k > 0)
-	verif.Assume(u >= 99990)
-	tail := verif.Bytes("tail", 2)
-	vTVAlphabet(tail)
+	verif.Assume(u >= 99999)
+	tail := vTVBytes("tail", 1)
 	tv := append([]byte{kind}, cnt...)
 	tv = append(tv, tail...)
 	c := NewContext()
-	typ, rest := c.DecodeTypeValue(tv)
+	var typ Type
+	var rest zcode.Bytes
+	panicked := true
+	func() {
+		defer func() { recover() }()
+		typ, rest = c.DecodeTypeValue(tv)
+		panicked = false
+	}()
+	if int(u) < 0 {
+		// the uvarint does not fit an int: DecodeLength wraps it negative
+		verif.Reach("negative")
+		verif.Assert(!panicked, "decode-panics/count-wraps-negative")
+	} else {
+		verif.Assert(!panicked, "decode-panics")
+	}
+	if panicked {
+		return
+	}
 	if rest == nil {
 		verif.Reach("reject")
 		return
@@ -163,11 +187,11 @@ func vValidateThenConsume(typ Type, body zcode.Bytes, setOfContainer bool) {
 }
 
 // verif:desc C11-O2a zed.Value.Validate (Walk, walkRecord/Array/Set/Map/Union, checkSet, checkEnum, zcode.Iter) on an arbitrary body for each type template never lets a panic escape, and when it returns nil a full consumer traversal of the same value (zed.Walk into every container, enum symbol indexing by selector, union untagging) does not panic, every enum selector is < the number of symbols and every union tag is in range.
-// verif:bounds body: every byte string of length 0..5 (quick) / 0..6 (thorough), or null; 11 type templates: {a:int64,b:string}, [int64], |[int64]|, |{string:int64}|, (int64,string), enum(x,y), n=[int64], error({a,b}), [(int64,[string])], {e:enum(x,y),m:|{string:int64}|}, |[[int64]]|
+// verif:bounds body: every byte string of length 0..4 (quick) / 0..6 (thorough), or null; 11 type templates: {a:int64,b:string}, [int64], |[int64]|, |{string:int64}|, (int64,string), enum(x,y), n=[int64], error({a,b}), [(int64,[string])], {e:enum(x,y),m:|{string:int64}|}, |[[int64]]|
 // verif:outside leaf (primitive) payload well-formedness, which Validate documents as unchecked; enum selectors wider than the body bound (see O2b)
 // verif:unwind 40
 func VerifH_C11_O2_validate_walk() {
-	n := 5
+	n := 4
 	if verif.Thorough() {
 		n = 6
 	}
